@@ -18,6 +18,7 @@
 #include <string.h>
 #include <sys/sendfile.h>
 #include <sys/stat.h>
+#include <sys/sysmacros.h>
 #include <sys/statfs.h>
 #include <sys/uio.h>
 #include <sys/vfs.h>
@@ -28,7 +29,7 @@ static int mode;
 static uv_loop_t loop_s;
 static uv_loop_t* loop;
 static int cb_count, opno;
-static long n_uring, n_pool;
+static long n_uring, n_pool, n_btime;
 static int slots[16];
 static char root[PATH_MAX];
 static uv_dir_t* dirs[4];
@@ -116,6 +117,39 @@ static void print_uvstat(const uv_stat_t* s) {
 }
 static void print_pstat(const struct stat* s) {
   print_stat_fields(s->st_mode, (long) s->st_nlink, (long) s->st_size, (long) s->st_atim.tv_sec, (long) s->st_mtim.tv_sec);
+}
+
+/* every field of uv_stat_t against statx(2) issued right now on the same object: within one run the kernel
+   reports the same values to whichever route asked (nothing touches the object in between), so all 16
+   fields must agree, incl. dev/ino/blocks/times/birth time that cannot be compared across trees */
+static void check_against_statx(const uv_stat_t* u, int dirfd, const char* path, int flags) {
+  struct statx x;
+  memset(&x, 0, sizeof x);
+  if (statx(dirfd, path, flags, STATX_BASIC_STATS | STATX_BTIME, &x) != 0) { printf("\n!stat-field op=%d statx(2) failed errno=%d", opno, errno); return; }
+#define F(name, uv, os) if ((unsigned long long) (uv) != (unsigned long long) (os)) \
+    printf("\n!stat-field op=%d field=%s uv=%llu os=%llu", opno, name, (unsigned long long) (uv), (unsigned long long) (os))
+  F("st_dev", u->st_dev, makedev(x.stx_dev_major, x.stx_dev_minor));
+  F("st_mode", u->st_mode, x.stx_mode);
+  F("st_nlink", u->st_nlink, x.stx_nlink);
+  F("st_uid", u->st_uid, x.stx_uid);
+  F("st_gid", u->st_gid, x.stx_gid);
+  F("st_rdev", u->st_rdev, makedev(x.stx_rdev_major, x.stx_rdev_minor));
+  F("st_ino", u->st_ino, x.stx_ino);
+  F("st_size", u->st_size, x.stx_size);
+  F("st_blksize", u->st_blksize, x.stx_blksize);
+  F("st_blocks", u->st_blocks, x.stx_blocks);
+  F("st_flags", u->st_flags, 0);
+  F("st_gen", u->st_gen, 0);
+  F("st_atim.tv_sec", u->st_atim.tv_sec, x.stx_atime.tv_sec);
+  F("st_atim.tv_nsec", u->st_atim.tv_nsec, x.stx_atime.tv_nsec);
+  F("st_mtim.tv_sec", u->st_mtim.tv_sec, x.stx_mtime.tv_sec);
+  F("st_mtim.tv_nsec", u->st_mtim.tv_nsec, x.stx_mtime.tv_nsec);
+  F("st_ctim.tv_sec", u->st_ctim.tv_sec, x.stx_ctime.tv_sec);
+  F("st_ctim.tv_nsec", u->st_ctim.tv_nsec, x.stx_ctime.tv_nsec);
+  F("st_birthtim.tv_sec", u->st_birthtim.tv_sec, x.stx_btime.tv_sec);
+  F("st_birthtim.tv_nsec", u->st_birthtim.tv_nsec, x.stx_btime.tv_nsec);
+#undef F
+  if (x.stx_mask & STATX_BTIME) n_btime++;
 }
 
 static const char* rel(const char* p) {   /* strip the scratch root */
@@ -317,7 +351,11 @@ int main(int argc, char** argv) {
                                                                                     : uv_fs_fstat(loop, &req, SLOT(A(1)), CB);
         r = fin(rc, &req);
         printf(" %s", rs(r));
-        if (r == 0) { print_uvstat(&req.statbuf); printf(" ptr=%d", req.ptr == &req.statbuf); }
+        if (r == 0) {
+          print_uvstat(&req.statbuf); printf(" ptr=%d", req.ptr == &req.statbuf);
+          if (w[0][0] == 'f') check_against_statx(&req.statbuf, SLOT(A(1)), "", AT_EMPTY_PATH);
+          else check_against_statx(&req.statbuf, AT_FDCWD, A(1), w[0][0] == 'l' ? AT_SYMLINK_NOFOLLOW : 0);
+        }
         uv_fs_req_cleanup(&req);
       }
       putchar('\n');
@@ -329,7 +367,13 @@ int main(int argc, char** argv) {
       } else {
         r = fin(uv_fs_statfs(loop, &req, A(1), CB), &req);
         printf("statfs %s", rs(r));
-        if (r == 0 && req.ptr) { uv_statfs_t* sf = req.ptr; printf(" type=%lx bsize=%ld", (long) sf->f_type, (long) sf->f_bsize); }
+        if (r == 0 && req.ptr) {
+          uv_statfs_t* sf = req.ptr; struct statfs os;
+          printf(" type=%lx bsize=%ld", (long) sf->f_type, (long) sf->f_bsize);
+          if (statfs(A(1), &os) == 0 && (sf->f_type != (uint64_t) os.f_type || sf->f_bsize != (uint64_t) os.f_bsize ||
+              sf->f_blocks != os.f_blocks || sf->f_files != os.f_files))
+            printf("\n!statfs-field op=%d", opno);
+        }
         uv_fs_req_cleanup(&req);
       }
       putchar('\n');
@@ -532,7 +576,7 @@ int main(int argc, char** argv) {
     if (dirs[i]) { uv_fs_t req; uv_fs_closedir(NULL, &req, dirs[i], NULL); uv_fs_req_cleanup(&req); }
   }
   tree(".");
-  fprintf(stderr, "stats uring_ops=%ld pool_ops=%ld\n", n_uring, n_pool);
+  fprintf(stderr, "stats uring_ops=%ld pool_ops=%ld btime_stats=%ld\n", n_uring, n_pool, n_btime);
   uv_run(loop, UV_RUN_DEFAULT);
   if (uv_loop_close(loop)) printf("!loop-close-busy\n");
   fflush(stdout);
